@@ -23,7 +23,16 @@ def run_world(world, seed, steps):
     import torch.multiprocessing as mp
     d = tempfile.mkdtemp(dir='/dev/shm', prefix='vq_c16_')
     try:
-        mp.spawn(c16_worker.worker, args=(world, os.path.join(d, 'init'), d, seed, steps), nprocs=world, join=True)
+        # a mismatch of collectives between the ranks shows up as a DEADLOCK: the run gets a deadline, the workers are killed and the case is reported
+        import time
+        pc = mp.spawn(c16_worker.worker, args=(world, os.path.join(d, 'init'), d, seed, steps), nprocs=world, join=False)
+        deadline = time.time() + float(os.environ.get('VQ_C16_DEADLINE', '240'))
+        while not pc.join(timeout=5):
+            if time.time() > deadline:
+                for p_ in pc.processes:
+                    if p_.is_alive():
+                        p_.kill()
+                raise TimeoutError(f'the {world} worker processes did not finish within the deadline (a rank waits in a collective the others never enter)')
         return [torch.load(os.path.join(d, f'rank{r}.pt')) for r in range(world)]
     finally:
         shutil.rmtree(d, ignore_errors=True)
